@@ -501,11 +501,88 @@ def histories_c04(run):
     run.exhaustive("histories: %d re-layouts of label objects that carry an earlier layout's stub chains" % n)
 
 
+# one ENGINE configured in several steps (constructor, then set_options calls that each give only some keys): the layout must
+# follow the MERGED configuration (a later call overrides the keys it gives, and only those)
+ENGINE_SEQS = [
+    [{"nodeSpacing": 12}, {"maxPos": 400}],
+    [{"nodeSpacing": 12, "minPos": 5}, {}],
+    [{"nodeSpacing": 9}, None, {"minPos": None}],
+    [{"maxPos": 60}, {"maxPos": None}],
+    [{"maxPos": 60, "nodeSpacing": 0}, {"maxPos": 200}],
+    [{}, {"nodeSpacing": 7}, {"minPos": -10}],
+    [{"minPos": None, "maxPos": 50}, {"nodeSpacing": 5}],
+    [{"minPos": 20, "maxPos": 300}, {"stubWidth": 2}, {"maxPos": 70}],
+    [{"nodeSpacing": 6, "maxPos": 90}, {"minPos": -40}, {"nodeSpacing": 1}],
+]
+
+
+def engine_step(labels, seq):
+    f = Force(None if seq[0] is None else dict(seq[0]))
+    for o in seq[1:]:
+        f.set_options(None if o is None else dict(o))
+    nodes = make_nodes(labels)
+    f.nodes(nodes)
+    f.compute()
+    return f, nodes
+
+
+def merged(seq):
+    m = {}
+    for o in seq:
+        m.update(o or {})
+    return m
+
+
+def relayout_step(labels, prior, options, how):
+    return c04_step(labels, prior, options, how)[1]
+
+
+def histories_engine(run, props):
+    n = 0
+    lab = HIST_LABELS + [[[40.0 + 6 * k, 10.0] for k in range(6)]]
+    for seq in ENGINE_SEQS:
+        for labels in lab:
+            eff = merged(seq)
+            inp = {"labels": labels, "options": eff, "entry": "engine:configured-in-steps", "sequence": seq}
+            ok, res = run.guard(lambda: engine_step(labels, seq), "%s.exception" % sorted(props)[0], inp)
+            run.case(("HE", str(labels), str(seq)), nontrivial=True)
+            n += 1
+            if ok:
+                judge(run, props, labels, eff, res[1], inp)
+    # label OBJECTS that took part in an earlier (crowded) layout are laid out again: stale stubs / positions must not show
+    crowded = [{"maxPos": 60}, {"maxPos": 25, "density": 0.5}]
+    later = [{"maxPos": None}, {"maxPos": 400}, {"maxPos": 90}]
+    for labels in (HIST_LABELS[2], [[5.0 * k, 8.0] for k in range(7)]):
+        for prior in crowded:
+            for opt in later:
+                for how in ("second-engine", "re-register"):
+                    full = dict(prior)
+                    full.update(opt)
+                    eff = opt if how == "second-engine" else full
+                    inp = {"labels": labels, "options": eff, "history": [{"entry": "force", "labels": labels, "options": prior}],
+                           "entry": "relayout:" + how, "step_options": opt}
+                    ok, nodes = run.guard(lambda: relayout_step(labels, prior, opt, how), "%s.exception" % sorted(props)[0], inp)
+                    run.case(("HR", str(labels), str(prior), str(opt), how), nontrivial=True)
+                    n += 1
+                    if ok:
+                        judge(run, props, labels, eff, nodes, inp)
+    run.exhaustive("histories: %d layouts on an engine configured in several steps / of label objects laid out before" % n)
+
+
+def judge(run, props, labels, options, nodes, inp):
+    if "C01" in props:
+        check_c01(run, labels, options, nodes, inp=inp)
+    w = props & {"C02", "C03"}
+    if w:
+        check_c02_c03(run, labels, options, nodes, w, inp=inp)
+
+
 def histories(run, props):
     if "C04" in props:
         histories_c04(run)
     if not (props & {"C01", "C02", "C03"}):
         return
+    histories_engine(run, props)
     n = 0
     for entry in ("direct", "force"):
         for A in HIST_CONFIGS:
@@ -589,6 +666,12 @@ def replay(run, props, inp):
     if str(inp.get("entry", "")).startswith("c04:"):
         g, nodes = c04_step(labels, inp["history"][0]["options"], inp["step_options"], inp["entry"][4:])
         check_c04(run, labels, options, g, nodes, inp=inp)
+        return
+    if str(inp.get("entry", "")).startswith("engine:"):
+        judge(run, props, labels, options, engine_step(labels, inp["sequence"])[1], inp)
+        return
+    if str(inp.get("entry", "")).startswith("relayout:"):
+        judge(run, props, labels, options, relayout_step(labels, inp["history"][0]["options"], inp["step_options"], inp["entry"][9:]), inp)
         return
     if "history" in inp:
         for h in inp["history"]:
